@@ -11,6 +11,7 @@ import (
 	"fmt"
 	"os"
 	"os/exec"
+	"runtime"
 	"strings"
 	"time"
 
@@ -24,6 +25,18 @@ func init() {
 	if src == "" {
 		return
 	}
+	// a canary whose failure mode is unbounded allocation must not take the machine with it
+	go func() {
+		var ms runtime.MemStats
+		for {
+			time.Sleep(20 * time.Millisecond)
+			runtime.ReadMemStats(&ms)
+			if ms.HeapAlloc > 3<<30 {
+				fmt.Printf("CANARY memory-exhaustion (heap above 3 GiB)\n")
+				os.Exit(0)
+			}
+		}
+	}()
 	L := lua.NewState()
 	ctx, cancel := context.WithTimeout(context.Background(), 20*time.Second)
 	defer cancel()
